@@ -879,3 +879,49 @@ func iterationSkips(fn *ssa.Function, sink ssa.Instruction) (ssa.Instruction, bo
 	}
 	return nil, false
 }
+
+// feed: one way a value gets into a list field of a node — the store itself (`n.F = append(n.F, x)`)
+// or, when the list is gathered in a local and stored at the end (`acc = append(acc, x)` …
+// `n.F = acc`), each append that feeds the local.
+type feed struct {
+	val ssa.Value       // the append call (or the stored value when it is no append)
+	at  ssa.Instruction // where it happens: the store, or the append of the accumulator
+}
+
+func (f feed) Block() *ssa.BasicBlock { return f.at.Block() }
+func (f feed) Pos() token.Pos         { return f.at.Pos() }
+
+func fieldFeeds(fn *ssa.Function, pkgSuffix, typeName, field string) []feed {
+	var out []feed
+	seen := map[ssa.Value]bool{}
+	for _, st := range storesToField(fn, pkgSuffix, typeName, field) {
+		if call, ok := st.Val.(*ssa.Call); ok && calleeName(call) == "builtin:append" {
+			out = append(out, feed{st.Val, st})
+			continue
+		}
+		var gather func(v ssa.Value)
+		n0 := len(out)
+		gather = func(v ssa.Value) {
+			if seen[v] {
+				return
+			}
+			seen[v] = true
+			switch x := v.(type) {
+			case *ssa.Phi:
+				for _, e := range x.Edges {
+					gather(e)
+				}
+			case *ssa.Call:
+				if calleeName(x) == "builtin:append" {
+					out = append(out, feed{x, x})
+					gather(x.Call.Args[0])
+				}
+			}
+		}
+		gather(st.Val)
+		if len(out) == n0 {
+			out = append(out, feed{st.Val, st})
+		}
+	}
+	return out
+}
